@@ -16,7 +16,17 @@ A VIOLATION is reported only for a certified fact contradicting a claim of the i
   printed counts that do not add up to the degree or disagree with the exported statuses,
   a listing whose number of lines is not zero_roots(unless set 'o') + #{inclusion != OUT},
   no termination although no root lies on the boundary of the search set.
-Undecided oracle answers are counted, never reported."""
+Undecided oracle answers are counted, never reported.
+
+Direct-call tie (run_direct): harness/c08_incl.c calls the real mps_{f,d,m}touchreal/imag/unit on generated exact dyadic
+(centre, radius, factor) triples, and the real mps_?update_inclusions, mps_cluster_detect_properties, mps_countroots on
+hand-built states; bin/incl (extracted from coq/Incl/TouchModel.v, TouchExch.v, InclModel.v) computes every outcome from the
+same dyadics (variant m: the unit-circle outcomes and the `log r < sep - n lmax' tests are taken from the real code) and must
+agree bit for bit.  Violations are decided on the implementation's output by exact rational geometry:
+  a touch test says `no touch' although n*r >= |c| (axes) / the closed disc D(z, r) meets the unit circle,
+  a root that was UNKNOWN comes out IN (OUT) although D(z, r) is not strictly inside (outside) the set,
+  a decided root flips, a cluster is left partly UNKNOWN, NOT_REAL on a disc meeting the real axis, wrong counts.
+A model/implementation difference on a case without a wrong claim is reported as broken correspondence (no input)."""
 import os, re, json, collections
 from fractions import Fraction as Fr
 import vf, solve as S, polygen as G, e2e
@@ -373,12 +383,431 @@ def judge(viol, case, opts, res, orc, facts, stats, tally):
                     viol.append(("attrs:%s:wrong:alg=%s:set=%s:detect=%s:phase=%s" % (S.ATTRS[a], alg, st, det, ph), "flagged %s: %s" % (bad, where()), dict(rp, root=j)))
 
 
+# ============================================================================= direct-call tie
+# harness/c08_incl.c calls the real touch tests / update_inclusions / detect_properties / countroots on hand-built
+# states; bin/incl (extracted from coq/Incl/TouchModel.v + InclModel.v) computes the same from the same exact dyadics.
+# Violations are decided by exact rational geometry on the implementation's output alone.
+VARIANTS = "fdm"
+TWO = Fr(2)
+
+
+def dyv(t):
+    m, e = t
+    return Fr(m) * (TWO ** e) if m else F0
+
+
+def fs(q):
+    """a rational for a message (Python refuses to print integers of more than 4300 digits)"""
+    if q == 0: return "0"
+    if max(q.numerator.bit_length(), q.denominator.bit_length()) < 600: return str(q)
+    return "%s2^%d" % ("-" if q < 0 else "", q.numerator.bit_length() - q.denominator.bit_length())
+
+
+def trunc_bits(M, E, nb=53):
+    k = abs(M).bit_length()
+    if k > nb:
+        s = k - nb; M = (abs(M) >> s) * (1 if M > 0 else -1); E += s
+    return M, E
+
+
+def scale_div(t, q, rng, exact_only=False):
+    """~ (M 2^E) / q as a 53-bit dyadic, moved by a few units in the last place (0 most often: tangent when q | M 2^k)"""
+    M, E = t
+    if M == 0: return (0, 0)
+    v = (abs(M) << 70) // q; s = max(0, v.bit_length() - 53); v >>= s
+    if not exact_only: v = max(0, v + rng.choice([-2, -1, 0, 0, 0, 0, 1, 2]))
+    return trunc_bits(v, E - 70 + s)
+
+
+def rnd_num(rng, v, prec=64, wide=False):
+    nb = rng.choice([1, 2, 5, 20, 52, 53]) if v != "m" or rng.random() < 0.5 else rng.randint(54, max(54, prec))
+    M = rng.getrandbits(nb) | (1 << (nb - 1))
+    if rng.random() < 0.5: M = -M
+    if v == "f": E = rng.randint(-60, 30) if not wide else rng.randint(-900, 900)
+    elif v == "d": E = rng.randint(-60, 30) if not wide else rng.choice([1, -1]) * rng.randint(1000, 20000)
+    else: E = rng.randint(-60, 30) if not wide else rng.randint(-400, 400)
+    return (M, E - nb)
+
+
+def pyth_point(rng, v, prec):
+    """a centre within an ulp or so of the unit circle, off the axes"""
+    a, b = sorted([rng.randint(1, 400), rng.randint(1, 400)])
+    if a == b: b += 1
+    x, y, c = b * b - a * a, 2 * a * b, a * a + b * b
+    nb = 53 if v != "m" else rng.choice([53, 60, prec])
+    def q(u):
+        w = (u << (nb + 8)) // c; s = max(0, w.bit_length() - nb); w >>= s
+        return (rng.choice([-1, 1]) * max(1, w + rng.choice([-1, 0, 0, 1])), -(nb + 8) + s)
+    return (q(x), q(y)) if rng.random() < 0.5 else (q(y), q(x))
+
+
+def unit_axis_point(rng, v, prec):
+    kmax = 52 if v != "m" else prec // 2 - 2
+    k = rng.randint(1, kmax); sg = rng.choice([-1, 1])
+    c = (rng.choice([-1, 1]) * ((1 << k) + sg), -k)
+    return ((c, (0, 0)) if rng.random() < 0.5 else ((0, 0), c)), (1, -k)
+
+
+def gen_touch_cases(rng, count):
+    out = []
+    kinds = ["axis-tangent", "axis-tangent", "axis-r0", "axis-c0", "unit-axis-tangent", "unit-axis-tangent", "unit-on-circle",
+             "unit-near-generic", "unit-near-generic", "unit-far", "generic", "wide", "guard"]
+    for i in range(count):
+        v = VARIANTS[i % 3]; kind = kinds[(i // 3) % len(kinds)]
+        prec = 64 if v != "m" else rng.choice([64, 128, 256])
+        fac = rng.choice([1, 1, 2, 2, 3, 4, 6, 8, 10, 14, 20, 64, 100, 2 * rng.randint(1, 60)])
+        x, y = rnd_num(rng, v, prec), rnd_num(rng, v, prec)
+        r = rnd_num(rng, v); r = (abs(r[0]), r[1] - rng.randint(0, 40))
+        if kind == "axis-tangent":
+            wide = rng.random() < 0.3
+            c = rnd_num(rng, v, prec, wide)
+            r = scale_div(c, fac, rng)
+            x, y = (c, rnd_num(rng, v, prec, wide)) if rng.random() < 0.5 else (rnd_num(rng, v, prec, wide), c)
+        elif kind == "axis-r0":
+            r = (0, 0)
+            if rng.random() < 0.5: x = (0, 0)
+            if rng.random() < 0.5: y = (0, 0)
+        elif kind == "axis-c0":
+            if rng.random() < 0.6: x = (0, 0)
+            else: y = (0, 0)
+            if rng.random() < 0.3: r = (0, 0)
+        elif kind == "unit-axis-tangent":
+            (x, y), d = unit_axis_point(rng, v, prec)
+            r = scale_div(d, fac, rng) if rng.random() < 0.8 else scale_div(d, 1, rng)
+        elif kind == "unit-on-circle":
+            x, y = rng.choice([((1, 0), (0, 0)), ((-1, 0), (0, 0)), ((0, 0), (1, 0)), ((0, 0), (-1, 0))])
+            r = rng.choice([(0, 0), (0, 0), (1, -1074 if v == "f" else -3000), (1, -60), (1, -53)])
+        elif kind == "unit-near-generic":
+            x, y = pyth_point(rng, v, prec)
+            r = rng.choice([(0, 0), (1, -70), (1, -60), (1, -56), (1, -54), (1, -53), (1, -52), (3, -52), (1, -48)])
+            if r[0] and rng.random() < 0.5: r = scale_div(r, fac, rng)
+        elif kind == "unit-far":
+            k = rng.randint(1, 40); big = rng.random() < 0.5
+            c = (rng.choice([-1, 1]), k if big else -k)
+            x, y = (c, (0, 0)) if rng.random() < 0.5 else ((0, 0), c)
+            d = ((1 << k) - 1, 0 if big else -k)
+            r = scale_div(d, fac, rng)
+        elif kind == "wide":
+            x, y = rnd_num(rng, v, prec, True), rnd_num(rng, v, prec, True)
+            r = rnd_num(rng, v, prec, True); r = (abs(r[0]), r[1])
+        elif kind == "guard":
+            if v == "f": r = scale_div(((1 << 53) - 1, 971), fac, rng); x, y = rnd_num(rng, v, prec, True), rnd_num(rng, v, prec, True)
+            else:
+                r = rnd_num(rng, v, prec, True); r = (abs(r[0]), r[1])
+        if v != "m": x, y = trunc_bits(*x), trunc_bits(*y)
+        r = trunc_bits(abs(r[0]), r[1])
+        if v == "f":
+            cl = lambda t: t if t[0] == 0 or (-1020 <= t[1] and t[1] + abs(t[0]).bit_length() <= 1023) else (t[0], max(-1020, min(t[1], 1023 - abs(t[0]).bit_length())))
+            x, y, r = cl(x), cl(y), cl(r)
+        out.append({"id": "t%d" % i, "v": v, "fac": fac, "prec": prec, "x": x, "y": y, "r": r, "cls": kind})
+    return out
+
+
+def touch_line(c):
+    return "T %s %s %d %d %d %d %d %d %d %d" % (c["id"], c["v"], c["fac"], c["prec"], c["x"][0], c["x"][1], c["y"][0], c["y"][1], c["r"][0], c["r"][1])
+
+
+def meets_axis(cv, rho):      # closed disc of radius rho around a centre whose coordinate is cv meets the axis
+    return rho >= abs(cv)
+
+
+def meets_unit(x, y, rho):
+    m2 = x * x + y * y
+    return m2 <= (1 + rho) ** 2 and (rho >= 1 or m2 >= (1 - rho) ** 2)
+
+
+def unit_relation(x, y, rho):
+    m2 = x * x + y * y
+    if m2 == (1 + rho) ** 2 or (rho <= 1 and m2 == (1 - rho) ** 2): return "tangent"
+    return "crossing"
+
+
+def near_circle(x, y):
+    """the centre lies within about 2^-50 of the unit circle (the reach of the rounding errors of cplx_mod / cdpe_mod)"""
+    return "within-2^-50-of-circle" if abs(x * x + y * y - 1) <= Fr(1, 1 << 49) else "off-circle"
+
+
+def m_unit_modelled(c):
+    """variant m: the model computes mps_mtouchunit itself only for centres on an axis whose square and |z| - 1 fit the precision"""
+    if c["x"][0] != 0 and c["y"][0] != 0: return False
+    t = c["x"] if c["y"][0] == 0 else c["y"]
+    if t[0] == 0: return True
+    bl = abs(t[0]).bit_length()
+    hi, lo = max(t[1] + bl, 1), min(t[1], 0)
+    return 2 * bl + 2 <= c["prec"] and hi - lo + 2 <= c["prec"]
+
+
+SETS_DIRECT = "arludioRIC"
+
+
+def gen_state_cases(rng, count):
+    out = []
+    for i in range(count):
+        v = VARIANTS[i % 3]
+        n = rng.choice([1, 1, 2, 2, 3, 3, 4, 5, 6, 8])
+        st = rng.choice("aC" + "rludioRI" * 3)
+        rs = rng.randint(0, 1); det = rng.choice([0, 0, 1, 2, 3, 3])
+        zr = rng.choice([0, 0, 0, 1, 2, 5])
+        prec = 64 if v != "m" else rng.choice([64, 128])
+        sep, lmax = rng.choice([(0.0, 0.0), (-30.5, 1.25), (-5.0, 0.5), (-700.0, 3.0), (-100.0, 0.0)])
+        idx = list(range(n)); rng.shuffle(idx)
+        clusters = []
+        single = rng.random() < (0.7 if st in "RI" or det else 0.35)
+        while idx:
+            k = 1 if single else rng.randint(1, min(3, len(idx)))
+            clusters.append(idx[:k]); idx = idx[k:]
+        roots = []
+        for j in range(n):
+            # which boundary this root is aimed at
+            opts = {"r": ["im"], "l": ["im"], "u": ["re"], "d": ["re"], "i": ["unit"], "o": ["unit"], "R": ["re"], "I": ["im"], "a": ["re", "im", "unit"], "C": ["re", "im", "unit"]}[st]
+            if det & 1: opts = opts + ["re"]
+            if det & 2: opts = opts + ["im"]
+            b = rng.choice(opts)
+            fac = rng.choice([1, n, 2 * n, 2 * n])
+            kind = rng.choice(["clear", "clear", "tangent", "tangent", "between", "straddle", "on-boundary", "r0", "tiny-r"])
+            wide = rng.random() < 0.15
+            x, y = rnd_num(rng, v, prec, wide), rnd_num(rng, v, prec, wide)
+            if b == "unit":
+                u = rng.random()
+                if u < 0.45: (x, y), d = unit_axis_point(rng, v, prec)
+                elif u < 0.75: x, y = pyth_point(rng, v, prec); d = (1, -53)
+                else:
+                    k = rng.randint(1, 30); big = rng.random() < 0.5
+                    c = (rng.choice([-1, 1]), k if big else -k); x, y = (c, (0, 0)) if rng.random() < 0.5 else ((0, 0), c); d = ((1 << k) - 1, 0 if big else -k)
+                if kind == "on-boundary": x, y = rng.choice([((1, 0), (0, 0)), ((-1, 0), (0, 0)), ((0, 0), (1, 0)), ((0, 0), (-1, 0))]); d = (0, 0)
+            else:
+                c = x if b == "im" else y
+                if kind == "on-boundary":
+                    c = (0, 0)
+                    if b == "im": x = c
+                    else: y = c
+                d = (abs(c[0]), c[1])
+            if kind == "clear": r = scale_div(d, fac * (1 << rng.randint(1, 30)), rng)
+            elif kind == "tangent": r = scale_div(d, fac, rng)
+            elif kind == "between": r = scale_div((d[0] * rng.randint(2, 7), d[1] - 3), max(1, fac), rng) if fac > 1 else scale_div(d, 1, rng)
+            elif kind == "straddle": r = scale_div((d[0] * rng.randint(8, 40), d[1] - 3), 1, rng)
+            elif kind == "r0": r = (0, 0)
+            elif kind == "tiny-r": r = (1, rng.choice([-1000, -300, -80, -60, -54]))
+            else: r = rng.choice([(0, 0), (1, -rng.randint(1, 200))])
+            if kind in ("clear", "tangent", "between", "straddle") and d[0] == 0: r = rng.choice([(0, 0), (1, -rng.randint(1, 200))])
+            if v != "m": x, y = trunc_bits(*x), trunc_bits(*y)
+            r = trunc_bits(abs(r[0]), r[1])
+            if v == "f":
+                cl = lambda t: t if t[0] == 0 or (-1020 <= t[1] and t[1] + abs(t[0]).bit_length() <= 1023) else (t[0], max(-1020, min(t[1], 1023 - abs(t[0]).bit_length())))
+                x, y, r = cl(x), cl(y), cl(r)
+            inc0 = rng.choice([0, 0, 0, 0, 0, 0, 1, 2]); att0 = rng.choice([0, 0, 0, 1, 2, 3])
+            roots.append({"x": x, "y": y, "r": r, "inc0": inc0, "att0": att0, "kind": kind, "aim": b})
+        out.append({"id": "s%d" % i, "v": v, "set": st, "rs": rs, "det": det, "sep": sep, "lmax": lmax, "zr": zr, "prec": prec, "n": n,
+                    "clusters": clusters, "roots": roots})
+    return out
+
+
+def state_line(c):
+    cl = ";".join(",".join(str(k) for k in g) for g in c["clusters"])
+    rt = " ".join("%d %d %d %d %d %d %d %d" % (r["x"][0], r["x"][1], r["y"][0], r["y"][1], r["r"][0], r["r"][1], r["inc0"], r["att0"]) for r in c["roots"])
+    return "S %s %s %s %d %d %r %r %d %d %d %s %s" % (c["id"], c["v"], c["set"], c["rs"], c["det"], c["sep"], c["lmax"], c["zr"], c["prec"], c["n"], cl, rt)
+
+
+def fields(line):
+    t = line.split()
+    return t[0], dict(x.split("=", 1) for x in t[1:] if "=" in x)
+
+
+def disc_inside(st, x, y, r):
+    """closed disc strictly inside the open set st / for the two lines: the disc meets the line (necessary for IN)"""
+    if st == "a": return True
+    if st == "r": return x - r > 0
+    if st == "l": return x + r < 0
+    if st == "u": return y - r > 0
+    if st == "d": return y + r < 0
+    if st == "i": return r < 1 and x * x + y * y < (1 - r) ** 2
+    if st == "o": return x * x + y * y > (1 + r) ** 2
+    if st == "R": return r >= abs(y)
+    if st == "I": return r >= abs(x)
+    return False
+
+
+def disc_outside(st, x, y, r):
+    opp = {"r": "l", "l": "r", "u": "d", "d": "u", "i": "o", "o": "i"}
+    if st in opp: return disc_inside(opp[st], x, y, r)
+    if st == "R": return r < abs(y)
+    if st == "I": return r < abs(x)
+    return False
+
+
+def run_direct(ctx, stats, only=None):
+    """returns coverage dict; reports violations through ctx.violation"""
+    h = ctx.compile_harness(["c08_incl.c"], "c08_incl", mode="san")
+    env = ctx.san_env()
+    rng = ctx.rng
+    if only is not None:
+        tcases = [c for c in only if c.get("kind") == "T"]; scases = [c for c in only if c.get("kind") == "S"]
+    else:
+        tcases = gen_touch_cases(rng, ctx.pick(3900, 30000))
+        scases = gen_state_cases(rng, ctx.pick(2400, 20000))
+    # deterministic replays of the witnesses of C08_mtouchunit_tangent_refuted / C08_ftouchunit_refuted and the probe that
+    # tells which version of mps_mtouchunit the tree has (before / after fixes/C08_munit_tangent.patch)
+    wit = [{"id": "w-m-unit-r0-on-circle", "v": "m", "fac": 2, "prec": 64, "x": (1, 0), "y": (0, 0), "r": (0, 0), "cls": "witness"},
+           {"id": "w-m-unit-tangent-inside", "v": "m", "fac": 2, "prec": 64, "x": (1, -1), "y": (0, 0), "r": (1, -2), "cls": "witness"},
+           {"id": "w-f-unit-modulus-rounding", "v": "f", "fac": 2, "prec": 64, "x": (0x1202bb20418f6d, -53), "y": (0x1a7343bb7bba41, -53), "r": (1, -56), "cls": "witness"},
+           {"id": "w-d-unit-modulus-rounding", "v": "d", "fac": 2, "prec": 64, "x": (8783257514563430, -53), "y": (-7984009867200034, -55), "r": (1, -56), "cls": "witness"}]
+    tcases = wit + tcases
+    tl = [touch_line(c) for c in tcases]; sl = [state_line(c) for c in scases]
+    import concurrent.futures
+    def run_h(lines):
+        if not lines: return []
+        k = max(1, min(6, len(lines) // 200 or 1)); chunks = [lines[i::k] for i in range(k)]
+        def one(ch):
+            rc, o, e = vf.sh([h], input="\n".join(ch) + "\n", timeout=900, env=env)
+            if rc != 0: raise vf.InfraError("c08_incl failed rc=%d: %s" % (rc, (e or "")[-1500:]))
+            return o.split("\n")[:len(ch)]
+        with concurrent.futures.ThreadPoolExecutor(max_workers=k) as ex: outs = list(ex.map(one, chunks))
+        res = [None] * len(lines)
+        for j, o in enumerate(outs):
+            if len(o) != len(chunks[j]): raise vf.InfraError("c08_incl returned %d lines for %d inputs" % (len(o), len(chunks[j])))
+            for t, line in enumerate(o): res[j + t * k] = line
+        return res
+    hout = run_h(tl + sl)
+    ht, hs = hout[:len(tl)], hout[len(tl):]
+    # model input: S lines extended with the outcomes taken from the real code
+    ml = list(tl)
+    for c, line, ho in zip(scases, sl, hs):
+        _, f = fields(ho)
+        if "SM" not in f: raise vf.InfraError("c08_incl: bad output %r" % ho[:200])
+        un = "".join(f["T"][7 * i] + f["SD"][6 * i] + f["SD"][6 * i + 1] for i in range(c["n"]))
+        ml.append(line + " " + f["SM"] + " " + un)
+    mout = ctx.run_model_lines("incl", ml, workers=6)
+    mt, ms = mout[:len(tl)], mout[len(tl):]
+    ctx.log("direct tie: %d touch cases, %d states through harness and model" % (len(tl), len(sl)))
+    hist = collections.Counter(); mism = collections.Counter(); mism_ex = {}
+    nviol = 0
+    # ---- which mps_mtouchunit
+    fixed_munit = fields(ht[0])[1]["T"][2] == "1" if only is None or tcases[0]["id"] == "w-m-unit-r0-on-circle" else None
+    stats["direct:mps_mtouchunit-version"] = "after-C08_munit_tangent.patch" if fixed_munit else "as-shipped"
+    def tsig(v, which, x, y, rho, r):
+        if which == "unit": rel = unit_relation(x, y, rho) + ":" + near_circle(x, y)
+        else: rel = "tangent" if rho == abs(y if which == "real" else x) else "crossing"
+        return "direct:touch-unsound:%s:%s:%s:%s" % (v, which, rel, "r=0" if r == 0 else "r>0")
+    def judge_touch(c, v, which, fac, bit, x, y, r, rp):
+        """bit = 0 (no touch) must be justified: axis tests for the disc scaled by fac, unit test for the disc itself"""
+        if bit != "0": hist["touch:%s:%s:touch" % (v, which)] += 1; return False
+        hist["touch:%s:%s:clear" % (v, which)] += 1
+        if which == "unit":
+            if meets_unit(x, y, r):
+                ctx.violation(tsig(v, which, x, y, r, r), "mps_%stouchunit (factor %d) says the disc does not touch the unit circle although the closed disc D(z, r) meets it: z = (%s, %s), r = %s" % (v, fac, fs(x), fs(y), fs(r)), rp); return True
+            if meets_unit(x, y, fac * r): hist["unit:%s:scaled-disc-meets-circle-but-clear(rounding/strictness inside the factor margin)" % v] += 1
+        else:
+            cv = y if which == "real" else x
+            if meets_axis(cv, fac * r):
+                ctx.violation(tsig(v, which, x, y, fac * r, r), "mps_%stouch%s (factor %d) says the scaled disc does not touch the axis although %d * r >= |c|: c = %s, r = %s" % (v, which, fac, fac, fs(cv), fs(r)), rp); return True
+        return False
+    # ---- touch lines
+    for c, line, ho, mo in zip(tcases, tl, ht, mt):
+        _, hf = fields(ho); _, mf = fields(mo)
+        if "T" not in hf or "T" not in mf: raise vf.InfraError("bad touch output %r / %r" % (ho[:100], mo[:100]))
+        x, y, r = dyv(c["x"]), dyv(c["y"]), dyv(c["r"])
+        rp = {"direct": [dict(c, kind="T")], "line": line, "impl": ho, "model": mo}
+        hist["T:%s:%s" % (c["v"], c["cls"])] += 1
+        bad = False
+        for k, which in enumerate(("real", "imag", "unit")):
+            bad |= judge_touch(c, c["v"], which, c["fac"], hf["T"][k], x, y, r, rp)
+        nviol += bad
+        mbits = mf["T"]
+        if c["v"] == "m":
+            mbits = mbits[:2] + ((mf["F"] if fixed_munit else mf["T"][2]) if m_unit_modelled(c) else "?")
+            hist["m-unit:%s" % ("modelled" if mbits[2] != "?" else "outcome-not-modelled")] += 1
+        for k, which in enumerate(("real", "imag", "unit")):
+            if mbits[k] != "?" and mbits[k] != hf["T"][k] and not bad:
+                key = "touch%s:%s" % (which, c["v"]); mism[key] += 1; mism_ex.setdefault(key, rp)
+    # ---- states
+    for c, line, ho, mo in zip(scases, sl, hs, ms):
+        _, hf = fields(ho); _, mf = fields(mo)
+        n, v, st = c["n"], c["v"], c["set"]
+        rp = {"direct": [dict(c, kind="S")], "line": line, "impl": ho, "model": mo}
+        hist["S:%s:set=%s" % (v, st)] += 1; hist["S:n=%d" % n] += 1; hist["S:clusters=%d" % len(c["clusters"])] += 1
+        bad = False
+        csize = {}
+        for g in c["clusters"]:
+            for k in g: csize[k] = len(g)
+        for i, rt in enumerate(c["roots"]):
+            x, y, r = dyv(rt["x"]), dyv(rt["y"]), dyv(rt["r"])
+            hist["root:%s:aim=%s" % (rt["kind"], rt["aim"])] += 1
+            tb = hf["T"][7 * i:7 * i + 7]
+            for k, (which, fac) in enumerate((("unit", 2 * n), ("imag", 2 * n), ("real", 2 * n), ("real", 1), ("imag", 1), ("real", n), ("imag", n))):
+                bad |= judge_touch(c, v, which, fac, tb[k], x, y, r, rp)
+            sd = hf["SD"][6 * i:6 * i + 6]; m2 = x * x + y * y
+            just = [(m2 <= 1) if sd[0] == "1" else (m2 >= 1), (m2 >= 1) if sd[1] == "1" else (m2 <= 1),
+                    (x <= 0) if sd[2] == "1" else (x >= 0), (x >= 0) if sd[3] == "1" else (x <= 0),
+                    (y <= 0) if sd[4] == "1" else (y >= 0), (y >= 0) if sd[5] == "1" else (y <= 0)]
+            if not all(just): hist["side-outcome-not-justified-by-the-centre:%s:%s" % (v, "unit" if not all(just[:2]) else "axis")] += 1
+            new = int(hf["INC"][i])
+            if rt["inc0"] == 0 and new != 0:
+                ok = disc_inside(st, x, y, r) if new == 1 else disc_outside(st, x, y, r)
+                if new == 1 and st in "RI":
+                    # IN for the two lines rests on the separation bound (C08_sep_branch_partial), not on geometry: only the
+                    # isolation requirement is judged; a disc that does not even meet the line (possible in variant m, whose
+                    # touch test truncates the centre to 53 bits) is counted
+                    if not ok: hist["IN-claim-for-a-line-although-the-disc-misses-it(variant %s)" % v] += 1
+                    ok = csize[i] == 1
+                hist["claim:%s:%s:%s" % (v, st, "IN" if new == 1 else "OUT")] += 1
+                if not ok:
+                    bad = True
+                    ctx.violation("direct:incl:%s:set=%s:claim=%s:%s:%s%s" % (v, st, "IN" if new == 1 else "OUT", "r=0" if r == 0 else "r>0",
+                                                                           "centre-on-boundary" if disc_inside(st, x, y, F0) == disc_outside(st, x, y, F0) and st not in "RI" else "centre-off-boundary",
+                                                                           ":" + near_circle(x, y) if st in "io" else ""),
+                                  "mps_%supdate_inclusions classifies root %d %s for the set '%s' although the closed disc D(z, r) is not strictly %s: z = (%s, %s), r = %s" % (
+                                      v, i, "IN" if new == 1 else "OUT", SETNAME.get(st, st), "inside" if new == 1 else "outside", fs(x), fs(y), fs(r)), rp)
+            elif rt["inc0"] != 0 and new not in (0, rt["inc0"]):
+                bad = True
+                ctx.violation("direct:incl:%s:decided-root-flipped" % v, "root %d was %s before the call and is %s after it" % (i, INC[rt["inc0"]], INC[new]), rp)
+            if (c["det"] & 1) and c["rs"] and csize[i] == 1 and hf["DA"][i] == "2":
+                hist["attr-claim:%s:NOT_REAL" % v] += 1
+                if r >= abs(y):
+                    bad = True
+                    ctx.violation("direct:attrs:%s:NOT_REAL:disc-meets-real-axis:%s" % (v, "r=0" if r == 0 else "r>0"),
+                                  "mps_cluster_detect_properties flags root %d NOT_REAL although the closed disc D(z, r) meets the real axis: Im z = %s, r = %s" % (i, fs(y), fs(r)), rp)
+        for g in c["clusters"]:
+            u = [hf["INC"][k] == "0" for k in g]
+            if any(u) and not all(u):
+                bad = True
+                ctx.violation("direct:incl:%s:cluster-partly-unknown" % v, "cluster %s has members with and without a decision after the call: %s" % (g, [hf["INC"][k] for k in g]), rp)
+        cnt = [int(t) for t in hf["CNT"].split(",")]
+        exp = [hf["INC"].count("1") + (c["zr"] if st != "o" else 0), hf["INC"].count("2") + (c["zr"] if st == "o" else 0), hf["INC"].count("0")]
+        if sum(cnt) != n + c["zr"] or cnt != exp:
+            bad = True
+            ctx.violation("direct:count:set=%s" % st, "mps_countroots gives %s for statuses %s and %d zero roots (expected %s, sum %d)" % (cnt, hf["INC"], c["zr"], exp, n + c["zr"]), rp)
+        nviol += bad
+        for key in ("T", "SD", "DA", "INC", "ATT", "CNT"):
+            if hf.get(key) != mf.get(key) and not bad:
+                k2 = "%s:%s" % (key, v); mism[k2] += 1; mism_ex.setdefault(k2, rp)
+    for key, cnt in sorted(mism.items()):
+        ctx.violation("correspondence:direct:%s" % key, "the extracted model (coq/Incl) and the real code disagree on %s in %d cases although no claim of the implementation is wrong, e.g. %s" % (
+            key, cnt, mism_ex[key]["line"][:300]), mism_ex[key], no_input=True)
+    samples = [{"line": l[:200], "impl": o[:200], "model": m[:200]} for l, o, m in list(zip(sl, hs, ms))[:3] + list(zip(tl, ht, mt))[:3]]
+    return {"touch_cases": len(tl), "state_cases": len(sl), "roots_in_states": sum(c["n"] for c in scases),
+            "cases_with_a_violated_claim": nviol, "model_impl_mismatches": dict(mism), "histogram": dict(hist), "samples": samples}
+
+
+
 def run(ctx):
     ctx.prove()
     ctx.proof_violation_if_broken()
     binary = ctx.compile_harness(["vf_solve.c"], "vf_solve", mode="san")
     env = ctx.san_env()
     quick = ctx.quick()
+    dstats = {}
+    if ctx.replay and json.load(open(ctx.replay)).get("direct"):
+        only = []
+        for c in json.load(open(ctx.replay))["direct"]:
+            if c.get("kind") == "T": c = dict(c, x=tuple(c["x"]), y=tuple(c["y"]), r=tuple(c["r"]))
+            else: c = dict(c, roots=[dict(r, x=tuple(r["x"]), y=tuple(r["y"]), r=tuple(r["r"])) for r in c["roots"]])
+            only.append(c)
+        dcov = run_direct(ctx, dstats, only=only)
+        return ctx.finish("proof", {"evaluations": dcov["touch_cases"] + dcov["state_cases"], "distinct_nontrivial": dcov["touch_cases"] + dcov["state_cases"],
+                                    "rule": "replayed direct-call case", "direct_tie": dcov, "samples": dcov["samples"], "trusted_base": ["replay"]}, [])
+    dcov = None
+    if not ctx.replay:
+        dcov = run_direct(ctx, dstats)
     if ctx.replay:
         rp = json.load(open(ctx.replay))
         fr2 = lambda l: [(Fr(a), Fr(b)) for a, b in l] if l else None
@@ -507,8 +936,10 @@ def run(ctx):
             for sig, what, rp in viol: ctx.violation(sig, what, rp)
     ctx.log("judged %d runs" % evaluations)
     hist = lambda key: dict(collections.Counter(key(c, o) for c, o in plan))
-    cov = {"evaluations": evaluations, "distinct_nontrivial": len(nontrivial),
-           "rule": "a case is (polynomial, option vector); distinct by both; non-trivial when the search set is restricted (certified polynomial) or detection is on",
+    dn = (dcov["touch_cases"] + dcov["state_cases"]) if dcov else 0
+    cov = {"evaluations": evaluations + dn, "distinct_nontrivial": len(nontrivial) + dn,
+           "direct_tie": dict(dcov or {}, **dstats),
+           "rule": "end to end: a case is (polynomial, option vector), distinct by both, non-trivial when the search set is restricted (certified polynomial) or detection is on; direct tie: a case is one generated touch triple or one hand-built state (all distinct by construction of the generator, all aimed at a boundary)",
            "solves": len(jobs), "solve_outcomes": dict(kinds), "polynomials": len(cases), "polynomials_certified": int(sum(oks)),
            "claims_judged": dict(stats), "claims_by_set": dict(tally),
            "by_search_set": hist(lambda c, o: opt(o, "-S")), "by_goal": hist(lambda c, o: opt(o, "-G")),
@@ -522,7 +953,9 @@ def run(ctx):
                             "harness/vf_solve.c export + lib/solve.py parser; lib/oracle.py client; mpmath/sympy only as untrusted hint provider",
                             "polynomials with roots scaled beyond the double range (class scaled-beyond-double-range) are judged without the oracle: the input is re-verified to be lead*prod(x - z_j) for the constructed exact roots and every containment / side test is exact rational arithmetic in Python",
                             "Python Fractions: identification of a certified root with a constructed exact root (the root lies in the certified tiny disc holding exactly mult roots), sign tests on exact rationals",
-                            "the touch tests and update_inclusions are modelled in Coq over exact numbers with abstract touch outcomes; the floating/DPE arithmetic inside the touch tests is validated end to end by the runs, not verified"]}
+                            "direct tie: harness/c08_incl.c (hand-built mps_context: roots, radii, prior inclusion/attrs, clusterization, zero_roots, sep, lmax_coeff, structure, search set, detection bits; it re-evaluates the six side expressions of the switch and the two radius tests with the same library calls as inclusion.c / modify.c, and these replicas are trusted); ocaml/incl_driver.ml (hand-written plumbing, zarith for decimal input only)",
+                            "variant m: mpc_mod inside mps_mtouchunit and the multiprecision unit-circle side test are not modelled bit for bit (their outcomes are inputs of the model in states; the touch outcome is modelled only for centres on an axis whose square fits the precision); libm log of the radius tests is not modelled (outcomes are inputs)",
+                            "the unit-circle touch tests are only proved up to the refutations C08_{m,f,d}touchunit*_refuted; the DPE / multiprecision products are covered by C08_dtouch_axis_sound (DPE) and its multiprecision corollary relative to the truncated centre"]}
     return ctx.finish("proof", cov, ["imaginary/real detection through the separation bound (log r < sep - n lmax) is only validated empirically (theorem C08_sep_branch_partial takes the root bound as hypothesis)",
                                      "termination is only required (and checked, by timeout) when no constructed root lies on the boundary of the search set; for the sets R and I a root in the set counts as on the boundary",
                                      "crashes / sanitizer reports of the solver itself are counted, not reported (C03, C07)"])
